@@ -362,6 +362,7 @@ pub fn run(out_dir: &str, tier: &str, seed: u64, only: Option<String>) -> Value 
         let (mut ninstr_a, mut ninstr_b) = (0usize, 0usize);
         let mut consts_identical = false;
         let mut unsupported = (Vec::new(), Vec::new());
+        let mut too_large = false;
         if !c.oracle_only {
         let states: Vec<(RState, RState)> = (0..k_states)
             .map(|_| {
@@ -414,7 +415,11 @@ pub fn run(out_dir: &str, tier: &str, seed: u64, only: Option<String>) -> Value 
         if c.expect_identical {
             v.push_str("Lemma pair_identical : prog_eqb A_prog B_prog = true.\nProof. vm_compute. reflexivity. Qed.\nDefinition pair_agree := C09_identical_programs_agree A_prog B_prog pair_identical.\nCheck pair_agree.\n");
         }
-        std::fs::write(format!("{out_dir}/{}.v", c.name), v).unwrap();
+        // programs beyond this size are not regenerated in Coq in any tier (plain f64 comparison only)
+        too_large = pa0.instrs.len().max(pb0.instrs.len()) > 6000;
+        if !too_large {
+            std::fs::write(format!("{out_dir}/{}.v", c.name), v).unwrap();
+        }
             ninstr_a = pa0.instrs.len();
             ninstr_b = pb0.instrs.len();
             consts_identical = pa0.consts.len() == pb0.consts.len() && pa0.consts.iter().zip(&pb0.consts).all(|(x, y)| x.to_bits() == y.to_bits());
@@ -448,7 +453,7 @@ pub fn run(out_dir: &str, tier: &str, seed: u64, only: Option<String>) -> Value 
             "name": c.name, "kind": c.kind, "expect_identical": c.expect_identical, "canon_outputs": canon_names,
             "leaks": [leaks_a, leaks_b],
             "ndirs": c.dirs.len(), "dirs": c.dirs,
-            "ninstr_a": ninstr_a, "ninstr_b": ninstr_b, "oracle_only": c.oracle_only,
+            "ninstr_a": ninstr_a, "ninstr_b": ninstr_b, "oracle_only": c.oracle_only || too_large,
             "consts_identical": consts_identical,
             "unsupported": [unsupported.0, unsupported.1],
             "states": used, "f64": {"states": k_f64, "worst_rel": worst, "failures": fails}, "max_density_failures": rho_fail,
